@@ -19,3 +19,167 @@ package nitro
 //@ ensures[zero] !result ==> s.refCount == old(s.refCount)
 //@ modifies s.refCount
 //@ loop 1 invariant s.refCount == old(s.refCount)
+
+// ---------------------------------------------------------------------------
+// C19 / C11 / C12: item encoding, file framing, checksums
+// ---------------------------------------------------------------------------
+
+//@ pure itemData(itm *Item) ref = itm + 12
+
+//@ axiom errs-nonnil: errNotEnoughSpace != nil && ErrShutdown != nil && ErrCorruptSnapshot != nil && ErrMaxSnapshotsLimitReached != nil
+
+//@ func (*Item).Bytes
+//@ trusted builds the slice header with reflect.SliceHeader; the data follows the 12-byte item header
+//@ pure-call
+//@ requires itm != nil
+//@ ensures ptr(result) == itm + 12 && len(result) == itm.dataLen && cap(result) == itm.dataLen
+
+//@ func (*Nitro).allocItem
+//@ trusted allocation through make() or the configured malloc; the block is fresh
+//@ requires l >= 0 && l < 4294967296
+//@ modifies heap($alive), heap($brk)
+//@ ensures result != nil && !old(alive(result)) && alive(result) && result >= old(brk()) && brk() >= result + 12 + l
+//@ ensures result.dataLen == l && result.bornSn == 0 && result.deadSn == 0
+//@ ensures forall a ref :: a != result ==> alive(a) == old(alive(a))
+
+//@ func (*Nitro).freeItem
+//@ trusted calls the configured free function when memory is user managed
+//@ modifies none
+
+//@ func (*Nitro).EncodeItem
+//@ props C19 C12
+//@ use errs-nonnil crcm-ext
+//@ requires m != nil && itm != nil && w != nil && wlen[w] >= 0
+//@ requires[disjoint] itm.dataLen == 0 || ptr(buf) + 4 <= itm + 12 || ptr(buf) >= itm + 12 + itm.dataLen
+//@ modifies buf[0], buf[1], buf[2], buf[3], wout[w], wlen[w]
+//@ ensures[space] len(buf) < 4 ==> err != nil && wlen[w] == old(wlen[w])
+//@ ensures[frame-prefix] wlen[w] >= old(wlen[w]) && (forall i int :: 0 <= i && i < old(wlen[w]) ==> wout[w][i] == old(wout[w][i]))
+//@ ensures[length] err == nil ==> wlen[w] == old(wlen[w]) + 4 + itm.dataLen
+//@ ensures[header] err == nil ==> wout[w][old(wlen[w])] == itm.dataLen / 16777216 && wout[w][old(wlen[w])+1] == (itm.dataLen / 65536) % 256 &&
+//@    wout[w][old(wlen[w])+2] == (itm.dataLen / 256) % 256 && wout[w][old(wlen[w])+3] == itm.dataLen % 256
+//@ ensures[body] err == nil ==> (forall i int :: 0 <= i && i < itm.dataLen ==> wout[w][old(wlen[w]) + 4 + i] == old(mem8(itm + 12 + i)))
+//@ ensures[checksum] err == nil ==> checksum == xor32(crcm(wout[w], old(wlen[w]), 4), crcm(wout[w], old(wlen[w]) + 4, itm.dataLen))
+//@ ensures[buf] err == nil ==> buf[0] == itm.dataLen / 16777216 && buf[1] == (itm.dataLen / 65536) % 256 && buf[2] == (itm.dataLen / 256) % 256 && buf[3] == itm.dataLen % 256
+//@ nopanic
+
+//@ pure be32at(r ref, p int) int = rin[r][p]*16777216 + rin[r][p+1]*65536 + rin[r][p+2]*256 + rin[r][p+3]
+//@ pure be16at(r ref, p int) int = rin[r][p]*256 + rin[r][p+1]
+
+//@ func (*Nitro).DecodeItem
+//@ props C19 C11
+//@ use crcm-ext
+//@ requires m != nil && r != nil && len(buf) >= 4 && rpos[r] >= 0 && rpos[r] <= rlen[r]
+//@ modifies rpos[r], mem(uint8), heap($alive), heap($brk)
+//@ ensures[pos-monotone] rpos[r] >= old(rpos[r]) && rpos[r] <= rlen[r]
+//@ ensures[short-header] ver != 0 && old(rlen[r] - rpos[r]) < 4 ==> result2 != nil && result0 == nil
+//@ ensures[terminator] ver != 0 && old(rlen[r] - rpos[r]) >= 4 && old(be32at(r, rpos[r])) == 0 ==>
+//@     result0 == nil && result2 == nil && rpos[r] == old(rpos[r]) + 4
+//@ ensures[item] ver != 0 && old(rlen[r] - rpos[r]) >= 4 && old(be32at(r, rpos[r])) > 0 && old(rlen[r] - rpos[r]) - 4 >= old(be32at(r, rpos[r])) ==>
+//@     result2 == nil && result0 != nil && !old(alive(result0)) && result0.dataLen == old(be32at(r, rpos[r])) &&
+//@     rpos[r] == old(rpos[r]) + 4 + result0.dataLen && result0.bornSn == 0 && result0.deadSn == 0
+//@ ensures[item-bytes] ver != 0 && result0 != nil && result2 == nil ==>
+//@     (forall i int :: 0 <= i && i < result0.dataLen ==> mem8(result0 + 12 + i) == rin[r][old(rpos[r]) + 4 + i])
+//@ ensures[checksum] ver != 0 && result0 != nil && result2 == nil ==>
+//@     result1 == xor32(crcm(rin[r], old(rpos[r]), 4), crcm(rin[r], old(rpos[r]) + 4, result0.dataLen))
+//@ ensures[short-body] ver != 0 && old(rlen[r] - rpos[r]) >= 4 && old(be32at(r, rpos[r])) > 0 && old(rlen[r] - rpos[r]) - 4 < old(be32at(r, rpos[r])) ==>
+//@     result2 != nil && result0 == nil
+//@ ensures[err-no-item] result2 != nil ==> result0 == nil
+//@ ensures[v0-short-header] ver == 0 && old(rlen[r] - rpos[r]) < 2 ==> result2 != nil && result0 == nil
+//@ ensures[v0-terminator] ver == 0 && old(rlen[r] - rpos[r]) >= 2 && old(be16at(r, rpos[r])) == 0 ==>
+//@     result0 == nil && result2 == nil && rpos[r] == old(rpos[r]) + 2
+//@ ensures[v0-item] ver == 0 && old(rlen[r] - rpos[r]) >= 2 && old(be16at(r, rpos[r])) > 0 && old(rlen[r] - rpos[r]) - 2 >= old(be16at(r, rpos[r])) ==>
+//@     result2 == nil && result0 != nil && result0.dataLen == old(be16at(r, rpos[r])) && rpos[r] == old(rpos[r]) + 2 + result0.dataLen
+//@ ensures[v0-item-bytes] ver == 0 && result0 != nil && result2 == nil ==>
+//@     (forall i int :: 0 <= i && i < result0.dataLen ==> mem8(result0 + 12 + i) == rin[r][old(rpos[r]) + 2 + i])
+//@ ensures[v0-short-body] ver == 0 && old(rlen[r] - rpos[r]) >= 2 && old(be16at(r, rpos[r])) > 0 && old(rlen[r] - rpos[r]) - 2 < old(be16at(r, rpos[r])) ==>
+//@     result2 != nil && result0 == nil
+//@ nopanic
+
+//@ lemma be32-roundtrip props=C19: forall l int :: 0 <= l && l < 4294967296 ==>
+//@     (l / 16777216) * 16777216 + ((l / 65536) % 256) * 65536 + ((l / 256) % 256) * 256 + l % 256 == l &&
+//@     0 <= l / 16777216 && l / 16777216 < 256
+
+//@ func (*rawFileWriter).WriteItem
+//@ props C19 C12
+//@ use errs-nonnil
+//@ requires f != nil && f.db != nil && itm != nil && f.w != nil && wlen[f.w] >= 0
+//@ requires[disjoint] itm.dataLen == 0 || ptr(f.buf) + 4 <= itm + 12 || ptr(f.buf) >= itm + 12 + itm.dataLen
+//@ modifies f.checksum, f.buf[0], f.buf[1], f.buf[2], f.buf[3], wout[f.w], wlen[f.w]
+//@ ensures[frame-prefix] wlen[f.w] >= old(wlen[f.w]) && (forall i int :: 0 <= i && i < old(wlen[f.w]) ==> wout[f.w][i] == old(wout[f.w][i]))
+//@ ensures[space] len(f.buf) < 4 ==> result != nil
+//@ ensures[length] result == nil ==> wlen[f.w] == old(wlen[f.w]) + 4 + itm.dataLen
+//@ ensures[header] result == nil ==> wout[f.w][old(wlen[f.w])] == itm.dataLen / 16777216 && wout[f.w][old(wlen[f.w])+1] == (itm.dataLen / 65536) % 256 &&
+//@    wout[f.w][old(wlen[f.w])+2] == (itm.dataLen / 256) % 256 && wout[f.w][old(wlen[f.w])+3] == itm.dataLen % 256
+//@ ensures[body] result == nil ==> (forall i int :: 0 <= i && i < itm.dataLen ==> wout[f.w][old(wlen[f.w]) + 4 + i] == old(mem8(itm + 12 + i)))
+//@ ensures[checksum] result == nil ==> f.checksum == xor32(old(f.checksum), xor32(crcm(wout[f.w], old(wlen[f.w]), 4), crcm(wout[f.w], old(wlen[f.w]) + 4, itm.dataLen)))
+//@ nopanic
+
+//@ func (*rawFileWriter).Checksum
+//@ props C19
+//@ requires f != nil
+//@ modifies none
+//@ ensures[def] result == f.checksum
+
+//@ func (*rawFileWriter).Close
+//@ props C19 C12
+//@ use errs-nonnil
+//@ requires f != nil && f.db != nil && f.w != nil && f.fd != nil && wlen[f.w] >= 0 && len(f.buf) >= 4
+//@ modifies f.checksum, f.buf[0], f.buf[1], f.buf[2], f.buf[3], wout[f.w], wlen[f.w], wflushed[f.w], heap($alive), heap($brk)
+//@ ensures[frame-prefix] wlen[f.w] >= old(wlen[f.w]) && (forall i int :: 0 <= i && i < old(wlen[f.w]) ==> wout[f.w][i] == old(wout[f.w][i]))
+//@ ensures[terminator] result == nil ==> wlen[f.w] == old(wlen[f.w]) + 4 && wout[f.w][old(wlen[f.w])] == 0 && wout[f.w][old(wlen[f.w])+1] == 0 &&
+//@    wout[f.w][old(wlen[f.w])+2] == 0 && wout[f.w][old(wlen[f.w])+3] == 0
+//@ ensures[flush-error] result == nil ==> wflushed[f.w] == wlen[f.w]
+//@ nopanic
+
+//@ func (*rawFileReader).ReadItem
+//@ props C19 C11
+//@ requires f != nil && f.db != nil && f.r != nil && len(f.buf) >= 4 && rpos[f.r] >= 0 && rpos[f.r] <= rlen[f.r] && f.version != 0
+//@ modifies f.checksum, rpos[f.r], mem(uint8), heap($alive), heap($brk)
+//@ ensures[pos-monotone] rpos[f.r] >= old(rpos[f.r]) && rpos[f.r] <= rlen[f.r]
+//@ ensures[short-header] old(rlen[f.r] - rpos[f.r]) < 4 ==> result1 != nil && result0 == nil
+//@ ensures[terminator] old(rlen[f.r] - rpos[f.r]) >= 4 && old(be32at(f.r, rpos[f.r])) == 0 ==>
+//@     result0 == nil && result1 == nil && rpos[f.r] == old(rpos[f.r]) + 4 && f.checksum == old(f.checksum)
+//@ ensures[item] old(rlen[f.r] - rpos[f.r]) >= 4 && old(be32at(f.r, rpos[f.r])) > 0 && old(rlen[f.r] - rpos[f.r]) - 4 >= old(be32at(f.r, rpos[f.r])) ==>
+//@     result1 == nil && result0 != nil && result0.dataLen == old(be32at(f.r, rpos[f.r])) && rpos[f.r] == old(rpos[f.r]) + 4 + result0.dataLen
+//@ ensures[item-bytes] result0 != nil && result1 == nil ==>
+//@     (forall i int :: 0 <= i && i < result0.dataLen ==> mem8(result0 + 12 + i) == rin[f.r][old(rpos[f.r]) + 4 + i])
+//@ ensures[checksum] result0 != nil && result1 == nil ==>
+//@     f.checksum == xor32(old(f.checksum), xor32(crcm(rin[f.r], old(rpos[f.r]), 4), crcm(rin[f.r], old(rpos[f.r]) + 4, result0.dataLen)))
+//@ ensures[checksum-unchanged] result0 == nil ==> f.checksum == old(f.checksum)
+//@ ensures[short-body] old(rlen[f.r] - rpos[f.r]) >= 4 && old(be32at(f.r, rpos[f.r])) > 0 && old(rlen[f.r] - rpos[f.r]) - 4 < old(be32at(f.r, rpos[f.r])) ==>
+//@     result1 != nil && result0 == nil
+//@ ensures[err-no-item] result1 != nil ==> result0 == nil
+//@ nopanic
+
+//@ func (*rawFileReader).Checksum
+//@ props C19
+//@ requires f != nil
+//@ modifies none
+//@ ensures[def] result == f.checksum
+
+//@ func KVToBytes
+//@ props C19
+//@ requires len(k) <= 65535
+//@ modifies mem(uint8), heap($alive), heap($brk)
+//@ ensures[len] len(result) == 2 + len(k) + len(v)
+//@ ensures[klen] result[0] == len(k) % 256 && result[1] == len(k) / 256
+//@ ensures[key] forall i int :: 0 <= i && i < len(k) ==> result[2 + i] == old(k[i])
+//@ ensures[value] forall i int :: 0 <= i && i < len(v) ==> result[2 + len(k) + i] == old(v[i])
+//@ ensures[fresh] ptr(result) >= old(brk())
+//@ ensures[mem-frame] forall a int :: a < old(brk()) ==> mem8(a) == old(mem8(a))
+//@ nopanic
+
+//@ func KVFromBytes
+//@ props C19
+//@ requires[wellformed] len(bs) >= 2 && 2 + bs[0] + bs[1] * 256 <= len(bs)
+//@ modifies none
+//@ ensures[key] ptr(k) == ptr(bs) + 2 && len(k) == bs[0] + bs[1] * 256
+//@ ensures[value] ptr(v) == ptr(bs) + 2 + len(k) && len(v) == len(bs) - 2 - len(k)
+//@ nopanic
+
+//@ func CompareKV
+//@ props C19
+//@ requires[wellformed] len(a) >= 2 && 2 + a[0] + a[1] * 256 <= len(a) && len(b) >= 2 && 2 + b[0] + b[1] * 256 <= len(b)
+//@ modifies none
+//@ ensures[def] result == bcmp(memheap8(), ptr(a) + 2, a[0] + a[1] * 256, ptr(b) + 2, b[0] + b[1] * 256)
+//@ nopanic
